@@ -366,32 +366,43 @@ def rule_link(rep, hs, lents):
                 f.write("\nint use%d() { return 0; }\n" % i)
         with open(os.path.join(work, "main.cpp"), "w") as f:
             f.write("int use1(); int use2();\nint main() { return use1() + use2(); }\n")
-        base = ["g++", "-std=c++17", "-O0", "-w", "-I" + INC()] + cj.EXTRA_INC
+        # under C++17 (static constexpr data members are implicitly inline) and under C++14 (they are not: one that a non-template inline function odr-uses
+        # needs a definition, or the program does not link at -O0)
+        for std_ in ("c++17", "c++14"):
+            base = ["g++", "-std=" + std_, "-O0", "-w", "-I" + INC()] + cj.EXTRA_INC
+            sfx = "" if std_ == "c++17" else "_14"
 
-        def cc(name):
-            p = subprocess.run(base + ["-c", os.path.join(work, name + ".cpp"), "-o", os.path.join(work, name + ".o")],
+            def cc(name, base=base, sfx=sfx):
+                p = subprocess.run(base + ["-c", os.path.join(work, name + ".cpp"), "-o", os.path.join(work, name + sfx + ".o")],
+                                   stdout=subprocess.PIPE, stderr=subprocess.PIPE)
+                return name, p.returncode, p.stderr.decode("utf-8", "replace")
+            with ThreadPoolExecutor(3) as ex:
+                res = list(ex.map(cc, ["tu1", "tu2", "main"]))
+            rep.cmd(" ".join(base) + " -c tu{1,2}.cpp main.cpp && g++ tu1.o tu2.o main.o (link only, not executed)")
+            lab_ = "all headers" if std_ == "c++17" else "all headers (C++14)"
+            failed_ = False
+            for name, rc, err in res:
+                if rc != 0:
+                    first = [l for l in err.splitlines() if "error" in l][:4]
+                    if any(cj.REPO in l for l in first):
+                        rep.violates("C19.link", lab_, "compile " + name, detail=" | ".join(first))
+                    else:
+                        rep.inconclusive("C19.link", lab_, "compile " + name, detail=" | ".join(first))
+                    failed_ = True
+                    break
+            if failed_:
+                if std_ == "c++17":
+                    return
+                continue
+            p = subprocess.run(["g++", "-o", os.path.join(work, "prog" + sfx)] + [os.path.join(work, n + sfx + ".o") for n in ("tu1", "tu2", "main")] + ["-lpthread"],
                                stdout=subprocess.PIPE, stderr=subprocess.PIPE)
-            return name, p.returncode, p.stderr.decode("utf-8", "replace")
-        with ThreadPoolExecutor(3) as ex:
-            res = list(ex.map(cc, ["tu1", "tu2", "main"]))
-        rep.cmd(" ".join(base) + " -c tu{1,2}.cpp main.cpp && g++ tu1.o tu2.o main.o (link only, not executed)")
-        for name, rc, err in res:
-            if rc != 0:
-                first = [l for l in err.splitlines() if "error" in l][:4]
-                if any(cj.REPO in l for l in first):
-                    rep.violates("C19.link", "all headers", "compile " + name, detail=" | ".join(first))
-                else:
-                    rep.inconclusive("C19.link", "all headers", "compile " + name, detail=" | ".join(first))
-                return
-        p = subprocess.run(["g++", "-o", os.path.join(work, "prog")] + [os.path.join(work, n + ".o") for n in ("tu1", "tu2", "main")] + ["-lpthread"],
-                           stdout=subprocess.PIPE, stderr=subprocess.PIPE)
-        err = p.stderr.decode("utf-8", "replace")
-        if p.returncode == 0:
-            rep.holds("C19.link", "all headers", "link of 2 TUs", scenario="%d non-template functions odr-used in both TUs" % len(body))
-        else:
-            syms = sorted(set(re.findall(r"(multiple definition of `[^']+'|undefined reference to `[^']+')", err)))
-            for s in syms[:20] or ["link failed: " + err[:300]]:
-                rep.violates("C19.link", "all headers", s, detail="g++ link of two TUs including all headers fails: " + s)
+            err = p.stderr.decode("utf-8", "replace")
+            if p.returncode == 0:
+                rep.holds("C19.link", lab_, "link of 2 TUs", scenario="%d non-template functions odr-used in both TUs, -std=%s" % (len(body), std_))
+            else:
+                syms = sorted(set(re.findall(r"(multiple definition of `[^']+'|undefined reference to `[^']+')", err)))
+                for s in syms[:20] or ["link failed: " + err[:300]]:
+                    rep.violates("C19.link", lab_, s, detail="g++ -std=%s link of two TUs including all headers fails: %s" % (std_, s))
         rep.unit("link witness: %d functions odr-used" % len(body))
         # second witness: class templates explicitly instantiated under C++14, where a static constexpr data member that is odr-used
         # (subscripted with a run-time index, bound to a reference) still needs a namespace-scope definition
